@@ -14,6 +14,7 @@ CONSTANTS
   WithDNSFail = TRUE
   SlowSet = {FALSE}
   CnSet = {"no"}
+  QuitSet = {"bye"}
   Devs = {}
   Gen = FALSE
 VIEW View
